@@ -1069,4 +1069,155 @@ theorem roundRat_tie_even (num : Int) (den : Nat) (w : UInt64) (h : roundRat num
   rw [roundMag_eq] at hrep ⊢
   exact encodeNat_even _ _ _ (signif_le _ _ hd) hk hrep
 
+/-! ## overflow happens exactly from `2^1024 - 2^970` on -/
+
+theorem pow2098 : (2 : Nat) ^ 2098 = 2 ^ 54 * 2 ^ 2044 := by
+  rw [← Nat.pow_add]
+
+set_option exponentiation.threshold 2200 in
+theorem pow2045 : (2 : Nat) ^ 2045 = 2 * 2 ^ 2044 := by
+  rw [show (2045 : Nat) = 2044 + 1 by rfl, Nat.pow_succ, Nat.mul_comm]
+
+set_option exponentiation.threshold 2200 in
+/-- overflow iff `|num / den| ≥ 2^1024 - 2^970` (the midpoint between the largest finite double and `2^1024`;
+    the midpoint itself rounds to even, i.e. up); scaled by `2^1074`: `(2^54 - 1) * 2^2044` -/
+theorem roundMag_overflow_iff (n d : Nat) (hd : 0 < d) :
+    2098 ≤ (roundMag n d).log2 ↔ (2 ^ 54 - 1) * (2 ^ 2044 * d) ≤ scale * n := by
+  have hlog : 2098 ≤ (roundMag n d).log2 ↔ 2 ^ 2098 ≤ roundMag n d := by
+    have := log2_lt_iff (roundMag n d) 2098 (by decide)
+    omega
+  rw [hlog, pow2098]
+  constructor
+  · intro hZ
+    have hmax : RepU ((2 ^ 53 - 1) * 2 ^ 2045) := ⟨2 ^ 53 - 1, 2045, by decide, rfl⟩
+    have hn := roundMag_nearest n d hd _ hmax
+    have h1 : 2 ^ 54 * (2 ^ 2044 * d) ≤ roundMag n d * d := by
+      rw [← Nat.mul_assoc]; exact Nat.mul_le_mul_right d hZ
+    have h2 : (2 ^ 53 - 1) * 2 ^ 2045 * d = (2 ^ 54 - 2) * (2 ^ 2044 * d) := by
+      rw [pow2045]; generalize (2 : Nat) ^ 2044 = P; ring
+    rw [h2] at hn
+    unfold adiff at hn
+    generalize scale * n = a at *
+    generalize roundMag n d * d = X at *
+    generalize 2 ^ 2044 * d = E at *
+    omega
+  · intro hT
+    apply Nat.le_of_not_gt
+    intro hlt
+    rw [← pow2098] at hlt
+    have hl : (roundMag n d).log2 < 2098 := (log2_lt_iff _ 2098 (by decide)).mpr hlt
+    rw [roundMag_eq] at hlt
+    revert hT hlt
+    generalize scale * n = a
+    intro hT hlt
+    have hE : 0 < 2 ^ 2044 * d := Nat.mul_pos (Nat.pow_pos (n := 2044) (Nat.succ_pos 1)) hd
+    -- the spacing is `2^2045`
+    have hs1 : 2045 ≤ quantum a d := by
+      unfold quantum
+      have h1 : 2 ^ 2097 * d ≤ a := by
+        have : (2 : Nat) ^ 2097 = 2 ^ 53 * 2 ^ 2044 := by rw [← Nat.pow_add]
+        rw [this, Nat.mul_assoc]
+        refine Nat.le_trans (Nat.mul_le_mul_right _ ?_) hT
+        decide
+      have h2 : 2 ^ 2097 ≤ a / d := (Nat.le_div_iff_mul_le hd).mpr h1
+      have h3 : a / d ≠ 0 := by
+        have : 0 < 2 ^ 2097 := Nat.two_pow_pos _
+        omega
+      have := (Nat.le_log2 h3).mpr h2
+      omega
+    have hk2 := le_signif a d (by omega)
+    have hs2 : quantum a d = 2045 := by
+      have h3 : 2 ^ 52 * 2 ^ quantum a d ≤ rneDiv a (d * 2 ^ quantum a d) * 2 ^ quantum a d :=
+        Nat.mul_le_mul_right _ hk2
+      rw [← Nat.pow_add] at h3
+      have h4 : 52 + quantum a d < 2098 := (Nat.pow_lt_pow_iff_right (by decide)).mp (Nat.lt_of_le_of_lt h3 hlt)
+      omega
+    rw [hs2] at hlt
+    have hk3 : rneDiv a (d * 2 ^ 2045) < 2 ^ 53 := by
+      have : (2 : Nat) ^ 2098 = 2 ^ 53 * 2 ^ 2045 := by rw [← Nat.pow_add]
+      rw [this] at hlt
+      exact Nat.lt_of_mul_lt_mul_right hlt
+    have hb : d * 2 ^ 2045 = 2 * (2 ^ 2044 * d) := by rw [pow2045]; ring
+    rw [hb] at hk3
+    have hbpos : 0 < 2 * (2 ^ 2044 * d) := by omega
+    have hq : 2 ^ 53 - 1 ≤ a / (2 * (2 ^ 2044 * d)) := by
+      rw [Nat.le_div_iff_mul_le hbpos]
+      have : (2 ^ 53 - 1) * (2 * (2 ^ 2044 * d)) = (2 ^ 54 - 2) * (2 ^ 2044 * d) := by ring
+      rw [this]
+      refine Nat.le_trans (Nat.mul_le_mul_right _ ?_) hT
+      decide
+    have hkq := le_rneDiv a (2 * (2 ^ 2044 * d))
+    have hdm := Nat.div_add_mod a (2 * (2 ^ 2044 * d))
+    have hqe : a / (2 * (2 ^ 2044 * d)) = 2 ^ 53 - 1 := by omega
+    rw [hqe] at hdm
+    have hbq : 2 * (2 ^ 2044 * d) * (2 ^ 53 - 1) = (2 ^ 54 - 2) * (2 ^ 2044 * d) := by ring
+    rw [hbq] at hdm
+    rcases rneDiv_cases a (2 * (2 ^ 2044 * d)) with ⟨e, h5, h6⟩ | ⟨e, _, _⟩
+    · rw [hqe] at h6
+      generalize 2 ^ 2044 * d = E at *
+      generalize a % (2 * E) = r at *
+      have : 2 * r = 2 * E := by omega
+      have := h6 this
+      omega
+    · omega
+
+/-- **overflow** of `roundRat`: exactly from the midpoint `2^1024 - 2^970` on (scaled: `(2^54 - 1) * 2^2044`) -/
+theorem roundRat_overflow_iff (num : Int) (den : Nat) (hd : 0 < den) :
+    roundRat num den = .overflow (decide (num < 0)) ↔ (2 ^ 54 - 1) * (2 ^ 2044 * den) ≤ scale * num.natAbs := by
+  rw [← roundMag_overflow_iff _ _ hd]
+  unfold roundRat finish
+  rw [if_neg (by omega)]
+  constructor
+  · intro h
+    split at h
+    · assumption
+    · cases h
+  · intro h
+    rw [if_pos h]
+
+theorem roundRat_overflow_sign {num : Int} {den : Nat} {neg : Bool} (h : roundRat num den = .overflow neg) :
+    neg = decide (num < 0) := (roundRat_overflow h).2.2
+
+/-- the same over ℚ -/
+theorem roundRat_overflow_iff_rat (num : Int) (den : Nat) (hd : 0 < den) :
+    roundRat num den = .overflow (decide (num < 0)) ↔ (2 ^ 1024 - 2 ^ 970 : ℚ) ≤ |(num : ℚ) / den| := by
+  rw [roundRat_overflow_iff num den hd]
+  have h1 : (0 : ℚ) < den := by exact_mod_cast hd
+  have h2 := scaleQ_pos
+  have hS : (scale : ℚ) = 2 ^ 1074 := by
+    unfold scale; simp only [Nat.cast_pow, Nat.cast_ofNat]
+  have e1 : (2 : ℚ) ^ 1024 * 2 ^ 1074 = 2 ^ 54 * 2 ^ 2044 := by rw [← pow_add, ← pow_add]
+  have e2 : (2 : ℚ) ^ 970 * 2 ^ 1074 = 2 ^ 2044 := by rw [← pow_add]
+  have habs : |(num : ℚ) / den| = ((num.natAbs : ℕ) : ℚ) / den := by
+    rw [abs_div, abs_of_pos h1, Nat.cast_natAbs, Int.cast_abs]
+  rw [habs, le_div_iff₀ h1]
+  have hN : (2 ^ 54 - 1) * (2 ^ 2044 * den) ≤ scale * num.natAbs ↔
+      2 ^ 54 * (2 ^ 2044 * den) ≤ scale * num.natAbs + 2 ^ 2044 * den := by
+    generalize 2 ^ 2044 * den = E
+    generalize scale * num.natAbs = a
+    omega
+  have hQ : 2 ^ 54 * (2 ^ 2044 * den) ≤ scale * num.natAbs + 2 ^ 2044 * den ↔
+      (2 : ℚ) ^ 54 * ((2 : ℚ) ^ 2044 * den) ≤ (scale : ℚ) * (num.natAbs : ℚ) + (2 : ℚ) ^ 2044 * den := by
+    rw [← Nat.cast_le (α := ℚ)]
+    simp only [Nat.cast_mul, Nat.cast_pow, Nat.cast_add, Nat.cast_ofNat]
+  rw [hN, hQ, hS]
+  generalize (num.natAbs : ℚ) = N
+  generalize (den : ℚ) = D at h1 ⊢
+  generalize (2 : ℚ) ^ 1024 = A at e1 ⊢
+  generalize (2 : ℚ) ^ 970 = B at e2 ⊢
+  generalize (2 : ℚ) ^ 2044 = C at e1 e2 ⊢
+  have hSp : (0 : ℚ) < 2 ^ 1074 := by rw [← hS]; exact h2
+  generalize (2 : ℚ) ^ 1074 = S at e1 e2 hSp ⊢
+  have key : (A - B) * D * S = 2 ^ 54 * (C * D) - C * D := by
+    calc (A - B) * D * S = (A * S - B * S) * D := by ring
+      _ = (2 ^ 54 * C - C) * D := by rw [e1, e2]
+      _ = 2 ^ 54 * (C * D) - C * D := by ring
+  constructor
+  · intro h
+    have h3 : (A - B) * D * S ≤ N * S := by rw [key]; linarith
+    exact le_of_mul_le_mul_right h3 hSp
+  · intro h
+    have h3 : (A - B) * D * S ≤ N * S := mul_le_mul_of_nonneg_right h (le_of_lt hSp)
+    rw [key] at h3; linarith
+
 end Yaql.Props.FloatRound
